@@ -349,6 +349,7 @@ func report(prop, tier string, seed int64, sel []Harness, results []JobResult, s
 	}
 	totalQueries, totalSolverMs := 0, int64(0)
 	solverErrs := 0
+	solverCrashes := 0
 	for _, r := range results {
 		h := r.Job.H
 		s := sums[h.ID]
@@ -551,6 +552,7 @@ func report(prop, tier string, seed int64, sel []Harness, results []JobResult, s
 		"solver_queries":                totalQueries,
 		"solver_seconds":                float64(totalSolverMs) / 1000,
 		"solver_errors":                 solverErrs,
+		"solver_crashes_recovered":      solverCrashes,
 		"harnesses":                     hsum,
 		"functions_encoded":             fenc,
 		"partial_run":                   partial,
